@@ -958,6 +958,55 @@ def dtype_history(run: Run, thorough: bool):
         shutil.rmtree(wd, ignore_errors=True)
 
 
+# ----------------------------------------------------------------------------- logging across model shapes
+
+
+def logging_across_shapes(run: Run, thorough: bool):
+    """What the observer writes depends on the SHAPE of the model (how many parameters there are to print, save and plot, how the
+    convergence plots are laid out on pages): every number of features 1..6, scalar and per-feature noise, with and without sources —
+    a short seeded fit with every periodicity on and a logs folder must finish and give the result of the same fit without logging."""
+    from harness import synth
+    shapes = [(1, 0, None), (2, 1, "gaussian-scalar"), (3, 1, "gaussian-scalar"), (4, 1, "gaussian-scalar"), (4, 2, "gaussian-diagonal"),
+              (5, 0, "gaussian-scalar"), (6, 1, "gaussian-diagonal")]
+    if thorough:
+        shapes += [(3, 2, "gaussian-diagonal"), (5, 2, "gaussian-diagonal"), (6, 0, "gaussian-scalar"), (7, 1, "gaussian-scalar"), (2, 0, "gaussian-diagonal")]
+    logs = dict(print_periodicity=2, save_periodicity=1, plot_periodicity=2)
+    seed = 3 + run.seed % 40
+    for nf, sd, noise in shapes:
+        desc = dict(algo="mcmc_saem", kind="logistic", n_feat=nf, source_dimension=sd, noise=noise, seed=seed, n_iter=4, variant="logging-across-shapes",
+                    logs=logs, path="tmp")
+        df = synth.make_df(n_ind=7, n_feat=nf, seed=2, kind="logistic")
+        out = []
+        for with_logs in (False, True):
+            wd = tmpdir()
+            try:
+                with quiet(wd):
+                    try:
+                        st = make_settings("mcmc_saem", seed, logs_kw(logs, os.path.join(wd, "logs")) if with_logs else {}, n_iter=4, progress_bar=False)
+                    except Refused:
+                        out.append("refused")
+                        continue
+                    model = synth.make_model("logistic", nf, sd, noise)
+                    try:
+                        model.fit(synth.make_data(df, "logistic"), algorithm_settings=st)
+                        out.append(digest_params(model))
+                    except Exception as e:  # noqa
+                        out.append(("exc", type(e).__name__, str(e)[:160]))
+            finally:
+                shutil.rmtree(wd, ignore_errors=True)
+        run.case(("logging-shapes", nf, sd, noise, seed), nontrivial=True)
+        run.count("logging_across_shapes", f"{nf} features, {sd} sources, {noise}")
+        if isinstance(out[0], tuple):
+            run.fail(f"fit:abort:{out[0][1]}", f"fit raised {out[0][1]}: {out[0][2]}", dict(desc, logs={}, path=None))
+        elif out[1] == "refused":
+            run.count("fit_variants", "refused-at-construction")
+        elif isinstance(out[1], tuple):
+            run.fail(f"logging:abort:{out[1][1]}", f"accepted configuration aborts the fit: {out[1][1]}: {out[1][2]}", desc,
+                     expected="run finishes", observed=f"{out[1][1]}: {out[1][2]}")
+        elif out[0] != out[1]:
+            run.fail("mcmc_saem:logging:result-differs", "same seed, different result (logging)", desc, expected=out[0], observed=out[1])
+
+
 def check_equal(run, ref, got, desc, name):
     algo = desc["algo"]
     if got["digest"] != ref["digest"]:
@@ -1069,6 +1118,7 @@ def main(run: Run):
         observer_purity(run)
         metamorphic(run, thorough)
         dtype_history(run, thorough)
+        logging_across_shapes(run, thorough)
     finally:
         shutil.rmtree(SCRATCH, ignore_errors=True)
     return run.finish()
